@@ -120,9 +120,10 @@ func expandEdits(edits []Edit) []editStep {
 		case "remove":
 			out = append(out, editStep{func() {
 				if p, n, er := fs.parentOf(e.Path); er == 0 {
-					if _, ok := p.Children[n]; ok {
+					if gone, ok := p.Children[n]; ok {
 						delete(p.Children, n)
 						notify(e.Path, EvRemove)
+						detached(gone, p, EvRemove)
 					}
 				}
 			}, "remove " + e.Path, true})
@@ -328,7 +329,7 @@ func Run(spec *Spec, mainFn func()) *Result {
 		res.Faults = Faults
 		res.EditsApplied = EditsApplied
 		for _, w := range Watchers {
-			res.WatchDirs = append(res.WatchDirs, w.Dirs...)
+			res.WatchDirs = append(res.WatchDirs, w.Names()...)
 		}
 		return res
 	}
